@@ -14,7 +14,7 @@ import (
 func init() {
 	register(&Prop{
 		ID: "C04", Level: "fault_enumeration",
-		Rule: "two scenario families, chosen per run. (a) enumerated endings: a generated transaction program of 1-6 operations (Handle/Update/Delete/Truncate, reads, Iter at a drawn position, a Snapshot() at a drawn position that must show the writes so far, refuse writes and is then dropped, aborted or committed while the transaction stays open) is executed once for every ending in {commit, explicit abort, error returned from Updates, panic inside Updates, runtime.Goexit of the calling goroutine inside the transaction} placed after every prefix of its operations (all positions enumerated for each program); after each operation the transaction's own view is compared with the private model and a second task sweeps the router (must show the committed state only); after the ending the router must show all or none of the writes, the settled transaction must refuse every method, a read-only transaction must refuse writes without effect, and a write issued by the second task must complete (writer lock released, else the scheduler reports a deadlock). (b) concurrent readers: multi-route transactions next to readers that observe several keys from one snapshot (Iter.All, View, Allow header), history checked with porcupine; the same family also runs under the race detector (HB mode). Non-trivial: the transaction made at least 2 effective writes and was observed from outside at least once while open; distinct = hash of (program, ending, position) or (programs, schedule).",
+		Rule: "two scenario families, chosen per run. (a) enumerated endings: a generated transaction program of 1-6 operations (Handle/Update/Delete/Truncate, reads, Iter at a drawn position, a Snapshot() at a drawn position that must show the writes so far, refuse writes and is then dropped, aborted or committed while the transaction stays open) is executed once for every ending in {commit, explicit abort, error returned from Updates, panic inside Updates, runtime.Goexit of the calling goroutine inside the transaction} placed after every prefix of its operations (all positions enumerated for each program); after each operation the transaction's own view is compared with the private model (on three drawn requests Lookup and Reverse of each reader must agree and Lookup's parameters, substituted into the selected pattern, must spell the request) and a second task sweeps the router (must show the committed state only); after the ending the router must show all or none of the writes, the settled transaction must refuse every method, a read-only transaction must refuse writes without effect, and a write issued by the second task must complete (writer lock released, else the scheduler reports a deadlock). (b) concurrent readers: multi-route transactions next to readers that observe several keys from one snapshot (Iter.All, View, Allow header), history checked with porcupine; the same family also runs under the race detector (HB mode). Non-trivial: the transaction made at least 2 effective writes and was observed from outside at least once while open; distinct = hash of (program, ending, position) or (programs, schedule).",
 		Run:  runC04, HBRun: runC04HB, Quick: 32000, Thorough: 4800000, QuickHB: 4000, ThoroughHB: 400000,
 		Real: commonReal, Stub: commonStub,
 		Domain: []string{"transaction programs of <= 6 operations; pools as in C02", "concurrent family: as C05 with 80% of writer operations being transactions"},
